@@ -1669,6 +1669,12 @@ func (db *DB) checkDatabaseBehindReplica(ctx context.Context) error {
 	if err := os.Rename(tmpPath, localPath); err != nil {
 		return fmt.Errorf("rename L0 file: %w", err)
 	}
+	// Make the new directory entry durable, as every other publish site does.
+	// The following sync may have nothing to write and would then report
+	// success with the baseline file's rename still unflushed.
+	if err := internal.FsyncDir(filepath.Dir(localPath)); err != nil {
+		return fmt.Errorf("sync L0 directory: %w", err)
+	}
 	db.invalidatePosCache()
 
 	db.Logger.Info("fetched latest L0 file from replica",
